@@ -445,9 +445,9 @@ EXTRA_TEXT = {
  'C17': ' The C11 codec contracts (UI/SNL encode and decode at any offset) are obligations here too.',
 }
 NOTE_APPEND = {
- 'C14': ' Known gaps (seeded changes C14-R8A/B are not caught): the PN532/PN533 register-level Type 1 Tag paths (who '
-        'verifies CRC_B there) are out of reach; the RC-S380 "chip CRC off implies driver verifies" statement is proved '
-        'for 106A targets only.',
+ 'C14': ' Known gap (seeded change C14-R8A is not caught): the PN532/PN533 register-level Type 1 Tag paths (who '
+        'verifies CRC_B there) are out of reach. RC-S380: whenever the last InSetProtocol of an exchange switched the '
+        'chip CRC check off, returned data has passed check_crc_a - for Type A targets at 106, 212 and 424 kbps.',
  'C18': ' Known gap (seeded change C18-R8B is not caught): the drivers\' own sense_*/listen_* paths are not under '
         'contract - sense() is proved against a driver model that raises only what the Device interface documents.',
  'C12': ' Added in round 8: the block number is toggled for every received block (rule B) - loop invariants; the '
